@@ -266,6 +266,16 @@ t("C17", "padding-decided-by-the-whole-cell", TS, "\tpad := width > 1 && string(
 t("C18", "resize-skipped-when-one-dimension-is-equal", "simulation.go", "\tif w != ow || h != oh {\n\t\ts.back.Resize(w, h)", "\tif w != ow && h != oh {\n\t\ts.back.Resize(w, h)", "skipped-only-when-both-dimensions-are-equal")
 t("C20", "content-events-filtered-by-sender", BL, "\tcase *EventWidgetContent:\n\t\t// This can only have come from one of our children.\n\t\tb.changed = true", "\tcase *EventWidgetContent:\n\t\tif len(b.Widgets()) == 0 {\n\t\t\treturn false\n\t\t}\n\t\tb.changed = true", "content-event-marks-the-layout-changed")
 
+# ---------------------------------------------------------------- round 11
+t("C02", "timer-armed-before-the-scan", TS, "\t\t\tt.keyexpire = time.Now().Add(time.Millisecond * 50)\n\t\t\tt.scanInput(buf, false, stopQ)\n\t\t\tif !t.keytimer.Stop() {\n\t\t\t\tselect {\n\t\t\t\tcase <-t.keytimer.C:\n\t\t\t\tdefault:\n\t\t\t\t}\n\t\t\t}\n\t\t\tif buf.Len() > 0 {\n\t\t\t\tt.keytimer.Reset(time.Millisecond * 50)\n\t\t\t}", "\t\t\tt.keyexpire = time.Now().Add(time.Millisecond * 50)\n\t\t\tif !t.keytimer.Stop() {\n\t\t\t\tselect {\n\t\t\t\tcase <-t.keytimer.C:\n\t\t\t\tdefault:\n\t\t\t\t}\n\t\t\t}\n\t\t\tt.keytimer.Reset(time.Millisecond * 50)\n\t\t\tt.scanInput(buf, false, stopQ)", "timer-armed-after-the-scan")
+t("C06", "simulation-keeps-its-size-after-fini", "simulation.go", "\ts.physw = 0\n\ts.physh = 0\n\ts.front = nil", "\ts.front = nil", "bounds-reset-with-the-cells")
+t("C10", "tty-stopped-without-the-lock", TS, "\tt.disableFocusReporting()\n\n\t_ = t.tty.Stop()", "\tt.disableFocusReporting()\n\tt.Unlock()\n\n\t_ = t.tty.Stop()\n\tt.Lock()", "tty-life")
+t("C12", "motion-fold-by-button-bits", TS, "\t\t\t\tif !t.buttondn {\n\t\t\t\t\tbtn |= 3", "\t\t\t\tif !t.buttondn && btn&0x43 == 0 {\n\t\t\t\t\tbtn |= 3", "motion-fold-by-held-flag-only")
+t("C13", "corner-trick-in-every-row", TS, "\tif y == t.h-1 && x == t.w-1 && t.ti.AutoMargin", "\tif y <= t.h-1 && x == t.w-1 && t.ti.AutoMargin", "corner-trick-only-in-the-corner")
+t("C18", "inject-mouse-only-while-reporting", "simulation.go", "\tev := NewEventMouse(x, y, buttons, mod)\n\ts.postEvent(ev)", "\tif !s.mouse {\n\t\treturn\n\t}\n\tev := NewEventMouse(x, y, buttons, mod)\n\ts.postEvent(ev)", "InjectMouse:always-posts")
+t("C19", "page-resized-only-while-running", "wscreen.go", "\tjs.Global().Call(\"resize\", w, h)\n\tt.w, t.h = w, h", "\tif t.running {\n\t\tjs.Global().Call(\"resize\", w, h)\n\t}\n\tt.w, t.h = w, h", "page-resized-in-any-state")
+t("C20", "orientation-change-not-announced", BL, "\t\tb.orient = orient\n\t\tb.changed = true\n\t\tb.PostEventWidgetContent(b)", "\t\tb.orient = orient\n\t\tb.changed = true\n\t\tb.layout()", "SetOrientation:change-is-announced")
+
 # drop the placeholder teeth that were only notes
 T[:] = [x for x in T if not x["Expect"].startswith("zzz-")]
 
